@@ -98,6 +98,13 @@ def _extract_input_object(
 ) -> Dict[str, Any]:
     coerced = {}
     node_fields = {f.name.value: f for f in node.fields}
+    field_map = type_.field_map
+    for name in node_fields:
+        if name not in field_map:
+            raise InvalidValue(
+                "Field %s is not defined by type %s" % (name, type_),
+                [node_fields[name]],
+            )
     for field in type_.fields:
         name = field.name
         target_name = field.python_name
